@@ -47,7 +47,7 @@
    * Integers are unbounded Z: t.N << t.H and id+i do not wrap (requests keep N < 2^31). *)
 From Verif.Base Require Import Bytes.
 From Verif.Gen Require Import GenRegex.
-From Verif.Tlog Require Import Index Tree Codec Tile.
+From Verif.Tlog Require Import Index Tree Codec Tile Spec6962.
 From Verif.Note Require Import Note.
 From Verif.Module Require Import Escape.
 
@@ -60,8 +60,6 @@ Arguments OOk {A} a.
 Arguments ONotExist {A}.
 Arguments OFail {A}.
 Arguments OPanic {A}.
-
-Definition zlength {A : Type} (l : list A) : Z := Z.of_nat (length l).
 
 Inductive ctype := CText | COctet.
 
@@ -239,7 +237,7 @@ Definition serve_tile (st : St) (path : str) : http_result * St :=
         let start := Z.shiftl (tN t) (tH t) in
         match op_read_records ops st start (tW t) with
         | OOk records =>
-            if negb (zlength records =? tW t) then (HStatus 500, st)
+            if negb (zlen records =? tW t) then (HStatus 500, st)
             else match data_tile_body start records with
                  | Some data => (HOk CText data, st)
                  | None => (HStatus 500, st)
@@ -295,7 +293,7 @@ Definition version_string (path vers : str) : str :=
 (* testHashes as a tlog reader: reader_of, with the range test done on Z first (the same function,
    ServerProofs.safe_reader_eq; Z.to_nat of a huge index is never built) *)
 Definition safe_reader (store : list hash) (indexes : list Z) : option (list hash) :=
-  if forallb (fun i => (0 <=? i) && (i <? zlength store)) indexes then reader_of store indexes else None.
+  if forallb (fun i => (0 <=? i) && (i <? zlen store)) indexes then reader_of store indexes else None.
 
 Section Test.
 Variable leaf_hash : str -> hash.
@@ -307,7 +305,7 @@ Variable sgn : signer sid.
 
 (* func (s *TestServer) Signed(ctx) ([]byte, error) *)
 Definition test_signed (st : tstate) : ores str :=
-  let size := zlength (ts_records st) in
+  let size := zlen (ts_records st) in
   match tree_hash node_hash size (safe_reader (ts_hashes st)) with
   | Index.Ok h =>
       match sign sid Sg {| n_text := format_tree (Tree size h); n_sigs := []; n_unverified := [] |} [sgn] with
@@ -323,7 +321,7 @@ Definition test_signed (st : tstate) : ores str :=
 Definition test_read_records (st : tstate) (id n : Z) : ores (list str) :=
   if n <=? 0 then OOk []
   else if id <? 0 then OPanic                              (* s.records[id] with id < 0 *)
-  else if zlength (ts_records st) <? id + n then OFail     (* "missing records" *)
+  else if zlen (ts_records st) <? id + n then OFail     (* "missing records" *)
   else OOk (firstn (Z.to_nat n) (skipn (Z.to_nat id) (ts_records st))).
 
 (* func (s *TestServer) Lookup(ctx, m module.Version) (int64, error) *)
@@ -334,7 +332,7 @@ Definition test_lookup (st : tstate) (path vers : str) : ores Z * tstate :=
   | None =>
       match gosum path vers with
       | OOk data =>
-          let id := zlength (ts_records st) in
+          let id := zlen (ts_records st) in
           let recs := ts_records st ++ [data] in
           let lk := ts_lookup st ++ [(key, id)] in
           match stored_hashes_for_record_hash node_hash id (leaf_hash data) (safe_reader (ts_hashes st)) with
